@@ -321,6 +321,108 @@ type mrSite struct {
 	ord                  int
 }
 
+// mrFollowers maps every range statement of a function body to the statements that follow it in its
+// enclosing statement list.
+func mrFollowers(body *ast.BlockStmt) map[*ast.RangeStmt][]ast.Stmt {
+	out := map[*ast.RangeStmt][]ast.Stmt{}
+	note := func(list []ast.Stmt) {
+		for i, st := range list {
+			if r, ok := st.(*ast.RangeStmt); ok {
+				out[r] = list[i+1:]
+			}
+		}
+	}
+	ast.Inspect(body, func(n ast.Node) bool {
+		switch b := n.(type) {
+		case *ast.BlockStmt:
+			note(b.List)
+		case *ast.CaseClause:
+			note(b.Body)
+		case *ast.CommClause:
+			note(b.Body)
+		}
+		return true
+	})
+	return out
+}
+
+func mrMentions(n ast.Node, name string) bool {
+	found := false
+	ast.Inspect(n, func(n ast.Node) bool {
+		if id, ok := n.(*ast.Ident); ok && id.Name == name {
+			found = true
+		}
+		return !found
+	})
+	return found
+}
+
+// mrKeysSorted recognises, purely structurally, the order-insensitive idiom
+//     for k := range M { X = append(X, k) }
+//     ... statements that do not mention X ...
+//     sort.Strings(X)            (or sort.Ints(X))
+// The keys of a map are distinct and sort.Strings / sort.Ints use the total order of the element
+// type, so X is the same whatever order the keys were visited in (L_Order: sorted_unique,
+// sort_strings_deterministic, sort_ints_deterministic).  Such a site needs no entry in the
+// hand-written table, so moving the idiom to another function does not break the classification.
+func mrKeysSorted(r *ast.RangeStmt, after []ast.Stmt) bool {
+	k, ok := r.Key.(*ast.Ident)
+	if !ok || k.Name == "_" || r.Tok != token.DEFINE {
+		return false
+	}
+	if v, ok := r.Value.(*ast.Ident); r.Value != nil && (!ok || v.Name != "_") {
+		return false
+	}
+	if len(r.Body.List) != 1 {
+		return false
+	}
+	as, ok := r.Body.List[0].(*ast.AssignStmt)
+	if !ok || as.Tok != token.ASSIGN || len(as.Lhs) != 1 || len(as.Rhs) != 1 {
+		return false
+	}
+	x, ok := as.Lhs[0].(*ast.Ident)
+	if !ok || x.Name == k.Name {
+		return false
+	}
+	call, ok := as.Rhs[0].(*ast.CallExpr)
+	if !ok || len(call.Args) != 2 || call.Ellipsis != token.NoPos {
+		return false
+	}
+	if f, ok := call.Fun.(*ast.Ident); !ok || f.Name != "append" {
+		return false
+	}
+	if a0, ok := call.Args[0].(*ast.Ident); !ok || a0.Name != x.Name {
+		return false
+	}
+	if a1, ok := call.Args[1].(*ast.Ident); !ok || a1.Name != k.Name {
+		return false
+	}
+	for _, st := range after {
+		if !mrMentions(st, x.Name) {
+			continue
+		}
+		es, ok := st.(*ast.ExprStmt)
+		if !ok {
+			return false
+		}
+		c, ok := es.X.(*ast.CallExpr)
+		if !ok || len(c.Args) != 1 {
+			return false
+		}
+		sel, ok := c.Fun.(*ast.SelectorExpr)
+		if !ok {
+			return false
+		}
+		pkg, ok := sel.X.(*ast.Ident)
+		if !ok || pkg.Name != "sort" || (sel.Sel.Name != "Strings" && sel.Sel.Name != "Ints") {
+			return false
+		}
+		a, ok := c.Args[0].(*ast.Ident)
+		return ok && a.Name == x.Name
+	}
+	return false
+}
+
 func (e *mrEnv) walk(n ast.Node, visit func(r *ast.RangeStmt)) {
 	ast.Inspect(n, func(n ast.Node) bool {
 		switch s := n.(type) {
@@ -497,6 +599,7 @@ func maprangeMain(args []string) {
 				}
 			}
 			ords := map[string]int{}
+			followers := mrFollowers(fd.Body)
 			e.walk(fd.Body, func(r *ast.RangeStmt) {
 				total++
 				kind := "unknown"
@@ -518,6 +621,9 @@ func maprangeMain(args []string) {
 				}
 				x := exprText(r.X)
 				ords[x]++
+				if mrKeysSorted(r, followers[r]) {
+					kind = "keys-sorted" // classified structurally, see mrKeysSorted
+				}
 				sites = append(sites, mrSite{f.name, fn, x, kind, ords[x]})
 			})
 		}
@@ -536,7 +642,7 @@ func maprangeMain(args []string) {
 		return a.ord < b.ord
 	})
 	var sb strings.Builder
-	sb.WriteString("(* GENERATED by `harness maprange` from the Go source of profile, internal/{graph,report,driver,measurement}\n   on every run; do not edit.  One entry per `range` whose operand is a map (\"map\") or could not be\n   resolved syntactically (\"unknown\"): (file, function, operand, occurrence, kind). *)\n")
+	sb.WriteString("(* GENERATED by `harness maprange` from the Go source of profile, internal/{graph,report,driver,measurement}\n   on every run; do not edit.  One entry per `range` whose operand is a map (\"map\") or could not be\n   resolved syntactically (\"unknown\"), \"keys-sorted\" when the loop only collects the keys into a slice that is\n   sorted by sort.Strings/sort.Ints before any other use: (file, function, operand, occurrence, kind). *)\n")
 	sb.WriteString("From Coq Require Import List String ZArith.\nImport ListNotations.\nOpen Scope string_scope.\n\n")
 	fmt.Fprintf(&sb, "Definition range_statements_total : Z := %d%%Z.\nDefinition range_statements_not_map : Z := %d%%Z.\n\n", total, notmap)
 	sb.WriteString("Definition map_range_sites : list (string * string * string * Z * string) := [\n")
